@@ -837,6 +837,22 @@ def _hook_order(run, wrapper_qual, want_first):
             bad = cfg.node(path[-1])
             run.fail('hook wrapper order/once violated: %s' % reason, g, bad.ast if bad.ast is not None else bad.text(),
                      witness=flow.describe_path(cfg, path))
+        # a raise out of the action or the responder ends the wrapper: nothing
+        # else of the stack is called afterwards and the exception is not
+        # swallowed (the wrapper has no handler and no finally of its own)
+        labelled = [n for n in cfg.live_nodes() if lab(n)]
+        if not labelled:
+            raise AnchorError('%s: no action/responder call found in the wrapper' % g.qual)
+        for n in labelled:
+            targets = [y for (y, l) in cfg.succ[n.id] if l == 'exc']
+            after = flow.reachable(cfg, targets)
+            late = [m for m in labelled if m.id in after]
+            swallowed = cfg.exit in after
+            run.check(not late and not swallowed,
+                      'a raise out of %s leaves the hook wrapper at once: no further action/responder call, not swallowed'
+                      % lab(n)[0].lstrip('^').lower(), g,
+                      (late[0].ast if late and late[0].ast is not None else (n.ast if n.ast is not None else n.text())),
+                      witness=['after the raise: %s' % (late[0].text() if late else 'normal exit reachable')])
         nfa = flow.project(cfg, lab, accept_exit=True, accept_xexit='!raise', edge_labeler=lambda a, b, l: 'X' if l == 'exc' else None)
         langs.append((g, flow.determinise(nfa)))
     d = flow.language_diff(langs[0][1], langs[1][1])
@@ -1279,6 +1295,88 @@ def r9_resource_from_route(run):
         raise AnchorError('_get_responder: no binding of the resource element')
 
 
+# ---------------------------------------------------------------------------
+# R11 the positional/keyword merge of a hooked responder called directly
+# ---------------------------------------------------------------------------
+
+def r11_merge_args(run):
+    """`_merge_responder_args` runs before any hook or responder of a wrapper
+    that was called directly with positional arguments.  A keyword the caller
+    supplied is recognised by KEY (membership in kwargs): its value - None,
+    '', 0 - plays no part; only names absent from kwargs take the positional
+    value of the same index.  Decided on the loop's guards."""
+    p = run.project
+    f = p.func('falcon.hooks._merge_responder_args')
+    params = [a.arg for a in f.node.args.args]
+    if len(params) != 3:
+        raise AnchorError('_merge_responder_args: expected (args, kwargs, argnames), found %s' % params)
+    p_args, p_kwargs, p_names = params
+    loops = [n for n in ast.walk(f.node) if isinstance(n, ast.For)]
+    loop = single(loops, 'loop over the argument names', f.qual)
+    it = loop.iter
+    if not (isinstance(it, ast.Call) and isinstance(it.func, ast.Name) and it.func.id == 'enumerate'
+            and len(it.args) == 1 and isinstance(it.args[0], ast.Name) and it.args[0].id == p_names
+            and isinstance(loop.target, ast.Tuple) and len(loop.target.elts) == 2
+            and all(isinstance(e, ast.Name) for e in loop.target.elts)):
+        raise UnknownIdiom('_merge_responder_args: loop is not `for i, name in enumerate(%s)`: %s' % (p_names, short(loop)))
+    v_i, v_name = (e.id for e in loop.target.elts)
+    stores = [a for a in ast.walk(loop) if isinstance(a, ast.Assign) and len(a.targets) == 1
+              and isinstance(a.targets[0], ast.Subscript) and isinstance(a.targets[0].value, ast.Name)
+              and a.targets[0].value.id == p_kwargs]
+    store = single(stores, 'store into kwargs', f.qual)
+    ok_store = (isinstance(store.targets[0].slice, ast.Name) and store.targets[0].slice.id == v_name
+                and isinstance(store.value, ast.Subscript) and isinstance(store.value.value, ast.Name)
+                and store.value.value.id == p_args and isinstance(store.value.slice, ast.Name) and store.value.slice.id == v_i)
+    run.check(ok_store, 'the merge stores the positional value of the same index under the argument name', f, store)
+
+    def is_membership(t):
+        # `name in kwargs` / `name not in kwargs` (also kwargs.keys())
+        if isinstance(t, ast.UnaryOp) and isinstance(t.op, ast.Not):
+            r = is_membership(t.operand)
+            return None if r is None else (not r)
+        if isinstance(t, ast.Compare) and len(t.ops) == 1 and isinstance(t.left, ast.Name) and t.left.id == v_name:
+            c = t.comparators[0]
+            if isinstance(c, ast.Call) and isinstance(c.func, ast.Attribute) and c.func.attr == 'keys' and not c.args:
+                c = c.func.value
+            if isinstance(c, ast.Name) and c.id == p_kwargs:
+                if isinstance(t.ops[0], ast.In):
+                    return True
+                if isinstance(t.ops[0], ast.NotIn):
+                    return False
+        return None
+
+    cfg = cfg_of(f, p)
+    run.use_cfg(cfg)
+    body_nodes = nodes_within(cfg, loop.body)
+    tests = [cfg.node(i) for i in sorted(body_nodes) if cfg.node(i).kind == 'test']
+    store_ids = [i for i in cfg.nodes_for(store) if i in body_nodes]
+    if not store_ids or not tests:
+        raise AnchorError('_merge_responder_args: no guard before the store into kwargs')
+    for t in tests:
+        sense = is_membership(t.ast)
+        reads_value = any((isinstance(x, ast.Subscript) and isinstance(x.value, ast.Name) and x.value.id == p_kwargs
+                           and isinstance(x.ctx, ast.Load))
+                          or (isinstance(x, ast.Call) and isinstance(x.func, ast.Attribute)
+                              and isinstance(x.func.value, ast.Name) and x.func.value.id == p_kwargs
+                              and x.func.attr in ('get', 'pop', 'setdefault', 'values', 'items'))
+                          for x in ast.walk(t.ast))
+        if sense is None and not reads_value:
+            raise UnknownIdiom('_merge_responder_args: unrecognised guard in the merge loop: %s' % short(t.ast))
+        run.check(sense is not None,
+                  'a keyword supplied by the caller is recognised by key membership, not by its value', f, t.ast,
+                  runtime_witness='hooked responder called as on_get(req, resp, item_id, fmt=None): the None keyword is taken for missing, args[1] raises IndexError before any hook runs')
+        if sense is None:
+            continue
+        # the store is reached only through the "absent" branch
+        absent = 'F' if sense else 'T'
+        present = 'T' if sense else 'F'
+        head = cfg.nodes_for(loop)
+        via_present = flow.reachable(cfg, [y for (y, l) in cfg.succ[t.id] if l == present], avoid_nodes=head, edge_filter=flow.no_exc)
+        via_absent = flow.reachable(cfg, [y for (y, l) in cfg.succ[t.id] if l == absent], avoid_nodes=head, edge_filter=flow.no_exc)
+        run.check(not (set(store_ids) & via_present) and bool(set(store_ids) & via_absent),
+                  'only names absent from kwargs take a positional value (a supplied keyword is never overwritten)', f, t.ast)
+
+
 def check(run):
     run.assume('user middleware does not mutate the prepared stacks at run time')
     run.assume('events of a call node are considered to have happened before its exceptional edge is taken')
@@ -1293,3 +1391,4 @@ def check(run):
     run.rule('R6', r6_wiring, 'registration order and mode wiring of the prepared stacks', floor=9)
     from . import c04 as _c04
     run.rule('R10', _c04.r5_handler_raises_nothing, 'the handler of last resort raises nothing itself, so process_response still runs after an unexpected exception (shared with C04 R5)', floor=4)
+    run.rule('R11', r11_merge_args, 'direct calls of a hooked responder: keywords are recognised by key when merging positional arguments', floor=3)
